@@ -33,7 +33,8 @@ EXPLANATION = (
     'ApiNamespace.normalize sorts, and normalize follows the filter. Decides these structural '
     'parts (closest of all properties to the behaviour itself).'
     ' R5 (imported from C15-R3): the class-level typing-import tracker is reset at the start of every module, so output does not depend on what ran earlier in the process.'
-    ' RD (decision drift, stonelint.conddrift): the tests of the functions this property is anchored in (stonelint.ownership) are compared with reference/conditions.json; a relation, polarity or connective changed over the same operands, or an operand purely added or dropped, is a violation; re-spellings and new or removed tests are not claimed.')
+    ' RD (decision drift, stonelint.conddrift): the tests of the functions this property is anchored in (stonelint.ownership) are compared with reference/conditions.json; a relation, polarity or connective changed over the same operands, or an operand purely added or dropped, is a violation; re-spellings and new or removed tests are not claimed.'
+    " RE (expression drift, stonelint.exprdrift): the same functions' attribute names, variable reads, simple statements, calls and arithmetic/slice literals are compared with reference/expressions.json; a substituted attribute or variable, a dropped call or assignment, swapped arguments or a changed literal is a violation; any other edit is not claimed.")
 ASSUMPTIONS = [
     'dicts preserve insertion order (CPython >= 3.7); a dict built in a deterministic order is '
     'ordered',
@@ -277,6 +278,8 @@ def run(pm, ctx):
     from ..conddrift import run_decisions
     from ..ownership import OWN
     run_decisions(pm, ctx, 'C12-RD', OWN['C12'])
+    from .. import exprdrift
+    exprdrift.run(pm, ctx, 'C12-RE', OWN['C12'])
 
 
 def _raw_unordered(ot, f, e, at):
